@@ -81,6 +81,10 @@ struct G<'a> {
     p: &'a Profile,
     ni: usize,
     np: usize,
+    nq: usize,
+    /// remaining steps of a map_ref chain being emitted (each on top of the previous node)
+    pending_chain: usize,
+    chain_stage: u8,
     nvars: usize,
     nobs: usize,
     nsubs: usize,
@@ -246,6 +250,28 @@ impl<'a> G<'a> {
         }
     }
     fn build(&mut self) -> Action {
+        // continue a chain zip -> map_ref -> map_ref -> map, each over the node just created
+        if self.pending_chain > 0 {
+            self.pending_chain -= 1;
+            return match self.pending_chain {
+                2 | 1 if self.nq > 0 && self.chain_stage == 0 => {
+                    self.chain_stage = 1;
+                    self.np += 1;
+                    Action::NewMapRefQ { src: usize::MAX }
+                }
+                _ if self.chain_stage == 1 => {
+                    self.chain_stage = 2;
+                    self.ni += 1;
+                    Action::NewMapRef { src: usize::MAX, proj: self.r.below(2) as u8 }
+                }
+                _ => {
+                    self.chain_stage = 0;
+                    self.pending_chain = 0;
+                    self.ni += 1;
+                    Action::NewMap { src: usize::MAX, f: self.f1(), fx: vec![] }
+                }
+            };
+        }
         // a node constructor over whatever exists
         if self.ni == 0 {
             self.ni += 1;
@@ -253,7 +279,8 @@ impl<'a> G<'a> {
             return Action::NewVar { init: self.val() };
         }
         let w_p = if self.np > 0 { 3 } else { 0 };
-        let k = self.r.weighted(&[4, 1, 1, 12, w_p, 2, 8, 4, 2, w_p, 2, 2]);
+        let w_q = if self.nq > 0 { 3 } else { 0 };
+        let k = self.r.weighted(&[4, 1, 1, 12, w_p, 2, 8, 4, 2, w_p, 2, 2, w_p / 2, w_q]);
         match k {
             0 => {
                 self.ni += 1;
@@ -309,6 +336,16 @@ impl<'a> G<'a> {
                 self.ni += 1;
                 Action::NewMapWithOld { src: self.idx(), f: self.f1() }
             }
+            12 => {
+                self.nq += 1;
+                self.pending_chain = 3;
+                self.chain_stage = 0;
+                Action::NewZipQ { a: self.idx(), b: self.idx() }
+            }
+            13 => {
+                self.np += 1;
+                Action::NewMapRefQ { src: self.idx() }
+            }
             _ => {
                 self.ni += 1;
                 Action::NewDependOn { a: self.idx(), b: self.idx(), pool_b: if self.np > 0 && self.r.chance(1, 3) { Pool::P } else { Pool::I } }
@@ -316,7 +353,9 @@ impl<'a> G<'a> {
         }
     }
     fn pool(&mut self) -> Pool {
-        if self.np > 0 && self.r.chance(1, 4) {
+        if self.nq > 0 && self.r.chance(1, 8) {
+            Pool::Q
+        } else if self.np > 0 && self.r.chance(1, 4) {
             Pool::P
         } else if self.r.chance(1, 4) {
             Pool::Any
@@ -345,7 +384,7 @@ pub fn gen_plan(seed: u64, p: &Profile) -> Plan {
     let big = plan_rng.chance(p.big_pct, 100);
     let n_actions = if big { plan_rng.range(60, 150) as usize } else { plan_rng.range(p.actions.0 as i64, p.actions.1 as i64) as usize };
     let max_nodes = if big { 48 } else { 24 };
-    let mut g = G { r: plan_rng, p: &p, ni: 0, np: 0, nvars: 0, nobs: 0, nsubs: 0, nmemo: 0, fault_free };
+    let mut g = G { r: plan_rng, p: &p, ni: 0, np: 0, nq: 0, pending_chain: 0, chain_stage: 0, nvars: 0, nobs: 0, nsubs: 0, nmemo: 0, fault_free };
     let mut actions = vec![];
     // setup
     let nv = 1 + g.r.below(3);
@@ -360,7 +399,7 @@ pub fn gen_plan(seed: u64, p: &Profile) -> Plan {
         actions.push(a);
     }
     while actions.len() < n_actions {
-        let can_build = g.ni + g.np < max_nodes;
+        let can_build = g.ni + g.np + g.nq < max_nodes;
         let w = [
             if can_build { p.w_build } else { 0 },
             if can_build { p.w_bind } else { 0 },
